@@ -272,6 +272,8 @@ const SPECIAL_WORDS: &[&str] = &[
     "0xDEAD_BEEF", "0xFFFF_FFFF_0000_0000", "0x1_0", "0xFF_", "0x_FF", "1_000", "1_000th", "0b1010", "0o17", "1e1_0",
     "1ßt", "1ſt", "21ﬆ", "21ﬆt", "5ẗh", "6tẖ", "2ŉd", "3ʀd", "1ST", "1ſT", "22ND",
     "bar_baz", "my_var2", "getUserName", "HTTPServer", "bar_baz's", "bar_baz_", "_bar_baz", "bar-baz", "x1",
+    // dictionary compounds whose parts are separated by markup that the Markdown front-end hides
+    "built-![alt text](u.png)in", "add-![x](y)on", "built-<b></b>in", "bar_![a b](c)baz", "well-![a](b)known", "my_![alt text](u.png)var2",
 ];
 
 const UNICODE_PIECES: &[&str] = &[
